@@ -22,6 +22,8 @@ import (
 
 	"github.com/buchgr/bazel-remote/v2/cache"
 	"github.com/buchgr/bazel-remote/v2/cache/disk"
+	"github.com/buchgr/bazel-remote/v2/cache/disk/casblob"
+	"github.com/buchgr/bazel-remote/v2/cache/disk/zstdimpl"
 	"github.com/buchgr/bazel-remote/v2/utils/verifhook"
 
 	. "verifharness/hlib"
@@ -114,6 +116,27 @@ func install() {
 	verifhook.Handler.Store(&h)
 }
 
+// a backend for the "kill during a backend fetch" crash point: Get is scripted per case, uploads are swallowed
+type crashProxy struct {
+	get func() (io.ReadCloser, int64, error)
+}
+
+func (p *crashProxy) Put(ctx context.Context, kind cache.EntryKind, hash string, logicalSize int64, sizeOnDisk int64, rc io.ReadCloser) {
+	_, _ = io.Copy(io.Discard, rc)
+	_ = rc.Close()
+}
+func (p *crashProxy) Get(ctx context.Context, kind cache.EntryKind, hash string, size int64) (io.ReadCloser, int64, error) {
+	if p.get != nil {
+		g := p.get
+		p.get = nil
+		return g()
+	}
+	return nil, -1, nil
+}
+func (p *crashProxy) Contains(ctx context.Context, kind cache.EntryKind, hash string, size int64) (bool, int64) {
+	return false, -1
+}
+
 type crashReader struct {
 	data []byte
 	pos  int
@@ -121,6 +144,8 @@ type crashReader struct {
 	fire func()
 	done bool
 }
+
+func (c *crashReader) Close() error { return nil }
 
 func (c *crashReader) Read(p []byte) (int, error) {
 	if !c.done && c.pos >= c.at {
@@ -162,7 +187,7 @@ func r4k(n int64) int64 { return (n + 4095) / 4096 * 4096 }
 func driver(seed uint64, n int, outV, outJSON string, _ []string) {
 	r := &Rng{S: seed}
 	rep := NewReport("crash", seed)
-	rep.Rule = "a sequential prefix of uploads (AC/CAS/RAW, overwrites, evictions with the remover gated), then a crash image taken at one of: k bytes into an upload (from inside its reader), the end of an upload whose bytes do not match the digest (all bytes written, end of stream not yet seen), the commit yield point (file complete, not indexed), between two unlinks of the remover, quiescence; access times of the image set to a random distinct order; restart with the same or the other storage mode and the same or a smaller max_size; every key read with known and unknown size; non-trivial = the image contains a file that is not an indexed entry (torn, uncommitted or evicted-not-unlinked) or the restart evicted something; distinct canonical case texts counted"
+	rep.Rule = "a sequential prefix of uploads (AC/CAS/RAW, overwrites, evictions with the remover gated), then a crash image taken at one of: k bytes into an upload (from inside its reader), the end of an upload whose bytes do not match the digest (all bytes written, end of stream not yet seen), k bytes into a backend fetch (object in stored form written in place), the commit yield point (file complete, not indexed), between two unlinks of the remover, quiescence; access times of the image set to a random distinct order; restart with the same or the other storage mode and the same or a smaller max_size; every key read with known and unknown size; non-trivial = the image contains a file that is not an indexed entry (torn, uncommitted or evicted-not-unlinked) or the restart evicted something; distinct canonical case texts counted"
 	log.SetOutput(io.Discard)
 	install()
 	ctx := context.Background()
@@ -177,14 +202,15 @@ func driver(seed uint64, n int, outV, outJSON string, _ []string) {
 			zstdMode = false
 		}
 		corruptCorpus := c == 2 // corpus case: zstd mode, a corrupt CAS upload killed while the server waits for the end of the stream
-		if corruptCorpus {
+		if corruptCorpus || c == 3 {
 			zstdMode = true
 		}
 		mode := map[bool]string{true: "zstd", false: "uncompressed"}[zstdMode]
 		g = &gates{evPark: make(chan string, 1), reqPark: make(chan string), evGo: make(chan struct{}), reqGo: make(chan struct{}), enabled: true}
 		my := g
 		dir, _ := os.MkdirTemp("", "verif-crash-")
-		dc, err := disk.New(dir, max, quiet, disk.WithStorageMode(mode))
+		px := &crashProxy{}
+		dc, err := disk.New(dir, max, quiet, disk.WithStorageMode(mode), disk.WithProxyBackend(px))
 		if err != nil {
 			panic(err)
 		}
@@ -239,7 +265,11 @@ func driver(seed uint64, n int, outV, outJSON string, _ []string) {
 		var indexedAtCrash disk.VerifSnapshot
 		take := func() { image = snapshotDir(realDir); indexedAtCrash = disk.VerifCacheSnapshot(dc) }
 		incomplete := map[string]bool{} // rel path of the file being written at the crash
-		kindOfCrash := r.Intn(4)
+		kindOfCrash := r.Intn(5)
+		fetchCorpus := c == 3 // corpus case: zstd mode, killed in the middle of a backend fetch
+		if fetchCorpus {
+			kindOfCrash = 4
+		}
 		reupload := c == 0 // corpus case: an interrupted re-upload of an acknowledged CAS blob
 		if createdOnly || corruptCorpus {
 			kindOfCrash = 0
@@ -320,6 +350,63 @@ func driver(seed uint64, n int, outV, outJSON string, _ []string) {
 			}
 			text = append(text, fmt.Sprintf("CRASH before commit of Put(%s,%s..,%d)", u.kind.String(), u.hash[:6], len(u.b.data)))
 			rep.Count("crash.before-commit")
+		case 4: // k bytes into a backend fetch (the object arrives in stored form and is written in place)
+			var u *blob
+			for _, b := range blobs {
+				if len(completed["cas/"+b.hash]) == 0 {
+					u = b
+				}
+			}
+			if u == nil {
+				take()
+				text = append(text, "CRASH at rest")
+				rep.Count("crash.at-rest")
+				break
+			}
+			object := u.data
+			if zstdMode {
+				tf, _ := os.CreateTemp("", "verif-obj-")
+				zi, _ := zstdimpl.Get("go")
+				if _, werr := casblob.WriteAndClose(zi, bytes.NewReader(u.data), tf, casblob.Zstandard, u.hash, int64(len(u.data))); werr != nil {
+					panic(werr)
+				}
+				object, _ = os.ReadFile(tf.Name())
+				_ = os.Remove(tf.Name())
+			}
+			k := r.Intn(len(object))
+			if r.Chance(30) {
+				k = len(object) - 1 - r.Intn(2)%len(object)
+				if k < 0 {
+					k = 0
+				}
+			}
+			before := map[string]bool{}
+			for _, f := range snapshotDir(realDir) {
+				before[f.rel] = true
+			}
+			rd := &crashReader{data: object, at: k, fire: func() {
+				take()
+				for _, f := range image {
+					if !before[f.rel] {
+						incomplete[f.rel] = true
+					}
+				}
+			}}
+			px.get = func() (io.ReadCloser, int64, error) { return rd, int64(len(u.data)), nil }
+			sz := int64(len(u.data))
+			if r.Chance(50) {
+				sz = -1
+			}
+			if rc, _, gerr := dc.Get(ctx, cache.CAS, u.hash, sz, 0); gerr == nil && rc != nil {
+				_, _ = io.Copy(io.Discard, rc)
+				_ = rc.Close()
+			}
+			if !rd.done {
+				take()
+			}
+			inflightKey = "cas/" + u.hash
+			text = append(text, fmt.Sprintf("CRASH %d bytes into Fetch(cas,%s..,%d) of a %d-byte object", k, u.hash[:6], len(u.data), len(object)))
+			rep.Count("crash.mid-fetch")
 		case 2: // between unlinks
 			snap := disk.VerifCacheSnapshot(dc)
 			if len(snap.Queue) > 0 {
